@@ -73,11 +73,17 @@ def assign_ids(rng, n, nids, empty):
     return st
 
 
-def curate(rng, st, nops=None):
+def curate(rng, st, nops=None, ops=None):
+    """manual curation of the spike clusters.  ops: the operations to apply, in order (default: 1-3 drawn from
+    merge / split / move / gap / renumber).  'renumber' moves ALL spikes of one cluster to a fresh id above the
+    highest one (top + 1, + 2 or + 5): the old id stays in the id space as an id without spikes BELOW the highest
+    id, so that the number of ids in use is smaller than max id + 1 (what phy does on every merge / split)."""
     sc = list(st)
     n = len(sc)
-    for _ in range(nops if nops is not None else rng.randint(1, 3)):
-        op = rng.choice(['merge', 'split', 'move', 'gap'])
+    if ops is None:
+        ops = [rng.choice(['merge', 'split', 'move', 'gap', 'renumber'])
+               for _ in range(nops if nops is not None else rng.randint(1, 3))]
+    for op in ops:
         top = max(sc)
         if op == 'merge' and top >= 1:
             a, b = rng.sample(range(top + 1), 2)
@@ -87,6 +93,10 @@ def curate(rng, st, nops=None):
             sc = [top + 1 if (c == a and rng.random() < 0.5) else c for c in sc]
         elif op == 'move':
             sc[rng.randrange(n)] = rng.randint(0, top + 1)
+        elif op == 'renumber':
+            a = rng.choice(sorted(set(sc)))
+            new = top + rng.choice([1, 1, 2, 5])
+            sc = [new if c == a else c for c in sc]
         else:   # leave a gap in the id space
             sc[rng.randrange(n)] = top + 2
     if sc == list(st):
@@ -97,7 +107,8 @@ def curate(rng, st, nops=None):
 def gen(rng, **o):
     """One semantic dataset.  Options: nc, nt, nsw, nspk, curated, empty, wmi ('file'|'inv'|'none'), div (bool),
     features ('full'|'subset'|'none'), vanish (probability of an all-non-positive feature row), probes, shanks,
-    rate, tamp (template value range), ties (bool), zero_template (bool), neg_amp (bool)."""
+    rate, tamp (template value range), ties (bool), zero_template (bool), neg_amp (bool), curate_ops (list of
+    curation operations, see curate)."""
     curated = o.get('curated', rng.random() < 0.4)
     nc = o.get('nc', rng.randint(2, 5))
     nt = o.get('nt', rng.randint(2, 4))
@@ -141,7 +152,7 @@ def gen(rng, **o):
         'channel_map': list(range(nc)), 'positions': pos,
         'rate': float(o.get('rate', rng.choice([100, 1000, 25000, 30000]))),
         'spike_samples': samples, 'spike_templates': st,
-        'spike_clusters': curate(rng, st) if curated else None,
+        'spike_clusters': curate(rng, st, ops=o.get('curate_ops')) if curated else None,
         'amplitudes': [float(a) for a in amps], 'shanks': None, 'probes': None, 'wm': None, 'wmi': None,
         'similar': None, 'features': None, 'template_features': None, 'raw': None, 'templates': tmpl,
     }
